@@ -139,12 +139,6 @@ def run_c18(run):
     viols, done, _ = validate(run, trace, "ActivationTrace", P18, "tv-act", ACT_TRACE_CONSTS)
     if done["lines"] != st["lines"]:
         raise Infra("trace validation consumed %d of %d lines" % (done["lines"], st["lines"]))
-    # the configuration-dependent binding (DNS set, user-name change allowed or not) is checked on recorded ledger behaviour of worlds
-    # built with both factory configurations, against the reference operator of the ledger specification
-    import families
-    lst, ldone = families.ledger_pass(run, "acctlevel", [], 8 if quick else 60, 120, ["P18_UserNameBound"], "c18")
-    run.require(ldone["counters"].get("uname_ok", 0) >= 5 and ldone["counters"].get("uname_rej", 0) >= 3,
-                "user-name binding scenarios: ok=%d rej=%d" % (ldone["counters"].get("uname_ok", 0), ldone["counters"].get("uname_rej", 0)))
     c = done["counters"]
     # measured coverage: distinct (activation epoch, notification history) observation points and distinct (name, configuration) scenarios
     ctx, scen, cur, samples, bad_lines, bad_behs = set(), set(), None, [], {l for l, _ in viols}, set()
@@ -193,6 +187,12 @@ def run_c18(run):
                      gated_inactive=300, nonzero_act=300).items():
         run.require(c.get(k, 0) >= n, "%s=%d < %d" % (k, c.get(k, 0), n))
     record_c18(run, trace, viols)
+    # the configuration-dependent binding (DNS set, user-name change allowed or not) is checked on recorded ledger behaviour of worlds
+    # built with both factory configurations, against the reference operator of the ledger specification
+    import families
+    lst, ldone = families.ledger_pass(run, "acctlevel", [], 8 if quick else 60, 120, ["P18_UserNameBound"], "c18")
+    run.require(ldone["counters"].get("uname_ok", 0) >= 5 and ldone["counters"].get("uname_rej", 0) >= 3,
+                "user-name binding scenarios: ok=%d rej=%d" % (ldone["counters"].get("uname_ok", 0), ldone["counters"].get("uname_rej", 0)))
 
 
 def c18_case_for(trace, line):
@@ -209,7 +209,7 @@ def c18_case_for(trace, line):
                 lines.append(ln)
     if ln["k"] in ("bound", "cross"):
         return ln, {"k": ln["k"], "act": ln["act"], "seq": ln["seq"], "cfg": ln["cfg"], "name": ln["name"], "via": ln["via"] if ln["k"] == "cross" else ""}
-    return ln, {"k": "beh", "act": lines[0]["act"], "seq": [x["e"] for x in lines[1:]], "cfg": lines[0]["cfg"]}
+    return ln, {"k": "beh", "act": lines[0]["act"], "seq": [x["e"] for x in lines[1:]], "cfg": lines[0]["cfg"], "ts": [x.get("ts", 0) for x in lines[1:]]}
 
 
 def record_c18(run, trace, viols):
